@@ -207,6 +207,11 @@ mod verif_cex_commit {
         { let b = tx.get_bucket("b")?; for i in from..to { b.delete(format!("key{:05}", i))?; } }
         tx.commit()
     }
+    fn del_present(db: &DB, from: u32, to: u32) -> Result<(), crate::Error> {
+        let tx = db.tx(true)?;
+        { let b = tx.get_bucket("b")?; for i in from..to { let _ = b.delete(format!("key{:05}", i)); } }
+        tx.commit()
+    }
     // one crash image: `base` (the file before the commit, zero-extended to the new length) with the selected writes applied
     fn image(base: &[u8], post: &[u8], evs: &[Ev], sel: &[usize], torn: Option<(usize, usize)>) -> Vec<u8> {
         let mut img = base.to_vec();
@@ -219,22 +224,49 @@ mod verif_cex_commit {
         }
         img
     }
+    type Step = (&'static str, Box<dyn Fn(&DB) -> Result<(), crate::Error>>);
     #[test]
     fn cex_commit_crash_images() {
         if std::env::var("IOSHIM_LOG").is_err() { println!("cex commit: shim not loaded, skipped"); return; }
         set_ctl("-1");
-        let p = tmp("crash");
-        let db = OpenOptions::new().pagesize(PS).open(&p).unwrap();
-        put_keys(&db, 0, 300, 700, 1).unwrap();
-        del_keys(&db, 0, 250).unwrap();
-        put_keys(&db, 1000, 1005, 50, 2).unwrap();
-        let steps: Vec<(&str, Box<dyn Fn(&DB) -> Result<(), crate::Error>>)> = vec![
-            ("put 5 small keys", Box::new(|db: &DB| put_keys(db, 1005, 1010, 50, 3))),
-            ("overwrite 10 keys with 700-byte values", Box::new(|db: &DB| put_keys(db, 250, 260, 700, 4))),
-            ("delete 10 keys", Box::new(|db: &DB| del_keys(db, 260, 270))),
-            ("put 40 keys of 300 bytes", Box::new(|db: &DB| put_keys(db, 2000, 2040, 300, 5))),
-        ];
-        let hist = "history (page size 1024): put 300 keys of 700 bytes, commit; delete 250 of them, commit; put 5 keys, commit (the persisted free list now spans several pages)";
+        // history A: a big file whose persisted free list spans several pages (allocations come from free runs)
+        {
+            let p = tmp("crash");
+            let db = OpenOptions::new().pagesize(PS).open(&p).unwrap();
+            put_keys(&db, 0, 300, 700, 1).unwrap();
+            del_keys(&db, 0, 250).unwrap();
+            put_keys(&db, 1000, 1005, 50, 2).unwrap();
+            let steps: Vec<Step> = vec![
+                ("put 5 small keys", Box::new(|db: &DB| put_keys(db, 1005, 1010, 50, 3))),
+                ("overwrite 10 keys with 700-byte values", Box::new(|db: &DB| put_keys(db, 250, 260, 700, 4))),
+                ("delete 10 keys", Box::new(|db: &DB| del_keys(db, 260, 270))),
+                ("put 40 keys of 300 bytes", Box::new(|db: &DB| put_keys(db, 2000, 2040, 300, 5))),
+            ];
+            crash_images_of(&db, &p, "history (page size 1024): put 300 keys of 700 bytes, commit; delete 250 of them, commit; put 5 keys, commit (the persisted free list now spans several pages)", steps);
+            drop(db);
+            let _ = std::fs::remove_file(&p);
+        }
+        // history B: a brand-new file and small commits: nearly nothing is free, the pages a commit releases are the LAST pages
+        // of the file, and every allocation (the new free-list page included) is taken at or near the end of the file
+        {
+            let p = tmp("crash-young");
+            let db = OpenOptions::new().pagesize(PS).open(&p).unwrap();
+            let steps: Vec<Step> = vec![
+                ("put 1 small key (first commit of the file)", Box::new(|db: &DB| put_keys(db, 0, 1, 20, 1))),
+                ("put 1 more small key", Box::new(|db: &DB| put_keys(db, 1, 2, 20, 2))),
+                ("overwrite the first key", Box::new(|db: &DB| put_keys(db, 0, 1, 30, 3))),
+                ("put 6 keys of 300 bytes (the leaf splits)", Box::new(|db: &DB| put_keys(db, 10, 16, 300, 4))),
+                ("delete 3 of them", Box::new(|db: &DB| del_keys(db, 10, 13))),
+                ("put 1 small key", Box::new(|db: &DB| put_keys(db, 2, 3, 20, 5))),
+                ("delete everything but one key", Box::new(|db: &DB| del_present(db, 1, 16))),
+                ("put 1 small key", Box::new(|db: &DB| put_keys(db, 3, 4, 20, 6))),
+            ];
+            crash_images_of(&db, &p, "history (page size 1024): a brand-new file", steps);
+            drop(db);
+            let _ = std::fs::remove_file(&p);
+        }
+    }
+    fn crash_images_of(db: &DB, p: &std::path::PathBuf, hist: &str, steps: Vec<Step>) {
         let mut done = String::new();
         for (si, (name, step)) in steps.iter().enumerate() {
             let pre = std::fs::read(&p).unwrap();
@@ -314,8 +346,6 @@ mod verif_cex_commit {
             }
             done.push_str(&format!("; {} , commit", name));
         }
-        drop(db);
-        let _ = std::fs::remove_file(&p);
     }
 
     // ---- C11: the FILE EXTENSION of a commit fails (RLIMIT_FSIZE makes fallocate answer EFBIG; no shim needed): the commit
@@ -326,25 +356,30 @@ mod verif_cex_commit {
         #[repr(C)] struct RLimit { cur: u64, max: u64 }
         extern "C" { fn getrlimit(res: i32, r: *mut RLimit) -> i32; fn setrlimit(res: i32, r: *const RLimit) -> i32; fn signal(sig: i32, h: usize) -> usize; }
         const RLIMIT_FSIZE: i32 = 1; const SIGXFSZ: i32 = 25; const SIG_IGN: usize = 1;
-        for &(warm, nkeys) in &[(0u32, 300u32), (20, 300), (20, 3000)] {
-            let p = tmp(&format!("ext-fault-{}-{}", warm, nkeys));
+        // slack: how far beyond the current length the file may still grow.  4 KiB: the page writes fail too; 1 MiB: ONLY the
+        // extension (an 8 MiB step) fails, the commit's own writes would fit
+        for &(warm, nkeys, slack) in &[(0u32, 300u32, 4096u64), (20, 300, 4096), (20, 3000, 4096), (0, 300, 1 << 20), (20, 300, 1 << 20)] {
+            let p = tmp(&format!("ext-fault-{}-{}-{}", warm, nkeys, slack));
             let db = OpenOptions::new().pagesize(PS).open(&p).unwrap();
             if warm > 0 { put_keys(&db, 5000, 5000 + warm, 100, 3).unwrap(); }
             let before = contents(&db);
             let len0 = std::fs::metadata(&p).unwrap().len();
             let mut old = RLimit { cur: 0, max: 0 };
-            unsafe { signal(SIGXFSZ, SIG_IGN); getrlimit(RLIMIT_FSIZE, &mut old); setrlimit(RLIMIT_FSIZE, &RLimit { cur: len0 + 4096, max: old.max }); }
+            unsafe { signal(SIGXFSZ, SIG_IGN); getrlimit(RLIMIT_FSIZE, &mut old); setrlimit(RLIMIT_FSIZE, &RLimit { cur: len0 + slack, max: old.max }); }
             let r = std::panic::catch_unwind(std::panic::AssertUnwindSafe(|| put_keys(&db, 0, nkeys, 300, 0)));
             unsafe { setrlimit(RLIMIT_FSIZE, &old); }
-            let what = format!("history: file of {} bytes (page size 1024, {} keys committed), then a commit of {} keys of 300 bytes whose FILE EXTENSION fails (EFBIG), then transactions on the same handle", len0, warm, nkeys);
+            let what = format!("history: file of {} bytes (page size 1024, {} keys committed), then a commit of {} keys of 300 bytes whose FILE EXTENSION fails (EFBIG; the file may grow by at most {} bytes), then transactions on the same handle", len0, warm, nkeys, slack);
             match r {
                 Err(_) => { println!("CEX Tx::commit (C11 no panic): {}: the failing commit panicked", what); panic!("c11-ext-panic"); }
-                Ok(Ok(())) => { println!("CEX Tx::commit (C11 error reported): {}: commit returned Ok although the file could not be extended", what); panic!("c11-ext-ok"); }
+                Ok(Ok(())) if slack <= 4096 => { println!("CEX Tx::commit (C11 error reported): {}: commit returned Ok although the file could not be extended", what); panic!("c11-ext-ok"); }
+                Ok(Ok(())) => {}        // the writes fitted: a commit that succeeds without the extension is fine as long as the handle keeps working
                 Ok(Err(_)) => {}
             }
+            let committed = matches!(r, Ok(Ok(())));
             let later = std::panic::catch_unwind(std::panic::AssertUnwindSafe(|| {
                 let c = contents(&db);
-                if c != before { return Err(format!("after the failed commit the handle shows {} entries, before it {}", c.len(), before.len())); }
+                if !committed && c != before { return Err(format!("after the failed commit the handle shows {} entries, before it {}", c.len(), before.len())); }
+                if committed && c.len() != before.len() + nkeys as usize { return Err(format!("the commit answered Ok but the handle shows {} entries, expected {}", c.len(), before.len() + nkeys as usize)); }
                 db.check().map_err(|e| format!("check() fails after the failed commit: {:?}", e))?;
                 put_keys(&db, 0, nkeys, 300, 0).map_err(|e| format!("the retry fails: {:?}", e))?;
                 let c1 = contents(&db);
